@@ -72,6 +72,9 @@ var c06Others = []struct {
 	{"extra-gauge", "gauge extra\n/./ {\n  extra = 1\n}\n", "depends"},
 	// sets its own time register on every line (1970): no other program's timestamp() may see that
 	{"sets-time", "counter total\n/./ {\n  settime(1)\n  total++\n}\n", "loads"},
+	// a metric that cannot be exported (its key is called prog, as the label mtail adds itself): it is left
+	// out of a scrape, and nothing else is
+	{"key-named-prog", "counter kp by prog\n/^(?P<prog>[a-c])/ {\n  kp[$prog]++\n}\n", "loads"},
 	{"hidden-same-name", "hidden counter total\ncounter visible\n/./ {\n  total++\n  visible = total\n}\n", "loads"},
 }
 
